@@ -90,6 +90,25 @@ func (b *WriteBuffer) Drain() []RecordBatch {
 	return drained
 }
 
+// Requeue puts batches that were drained for a flush that then failed back at
+// the front of the buffer, ahead of anything appended since, so that offsets
+// stay in order and the next flush retries them. lastFlush is left untouched.
+func (b *WriteBuffer) Requeue(batches []RecordBatch) {
+	if len(batches) == 0 {
+		return
+	}
+	b.mu.Lock()
+	defer b.mu.Unlock()
+	merged := make([]RecordBatch, 0, len(batches)+len(b.batches))
+	merged = append(merged, batches...)
+	merged = append(merged, b.batches...)
+	b.batches = merged
+	for _, batch := range batches {
+		b.sizeBytes += len(batch.Bytes)
+		b.messageCount += int(batch.MessageCount)
+	}
+}
+
 // RecordsFrom returns the raw bytes of buffered batches needed to serve a read
 // starting at offset, concatenated, non-destructively. A batch is included when
 // its last offset (BaseOffset+LastOffsetDelta) is >= offset, i.e. the batch that
